@@ -17,7 +17,7 @@ import (
 
 func init() { Register("C18", "model_checking", C18) }
 
-var c18Lookup = map[string]string{"A": "la", "B": "lb"}
+var c18Lookup = map[string]string{"A": "la", "B": "lb", "E": ""} // the Lookup constant of MC_Dotenv.tla (E is set to the empty string)
 
 func c18Parse(text string) (m map[string]string, err error, pan interface{}, hung bool) {
 	type res struct {
